@@ -108,6 +108,23 @@ CHECKS = {
         "DESIGN.md section 5 C12",
         NOTE_MODEL + "; core::fmt::Formatter::pad_integral is trusted for widths above 128 bits",
     ),
+
+    "C09": core(
+        "c09",
+        "states = (source value, ordered type pair): every ordered pair of a list of bnum types (18 in the quick tier, 42 in the thorough tier: all four digit types, widths 8..320 incl. 24, 40, 48, 96, 136, 192) x every source value of a plan (FULL up to 16 bits, boundary sets beyond, plus 2^tbits / 2^(tbits-1) +-2 of the target embedded in the source), every bnum type x each of the 12 primitive integers in both directions, bool and char sources (every char in the thorough tier), and the bit-preserving reinterpretations on unary plans; expected = source value mod 2^(target BITS); As::as_ and CastFrom::cast_from must agree",
+        "As / CastFrom between all enumerated integer type pairs yield the source value reduced modulo 2^(target BITS) and never panic; cast_signed / cast_unsigned / to_bits / from_bits preserve the bit pattern.",
+        "DESIGN.md section 5 C09",
+        NOTE_MODEL + "; quick tier runs the debug-assertion profile only (the cast code has no build-mode arms), thorough both",
+        extra={"bin_thorough": "c09t", "profiles_quick": ["relda"], "assumptions": ["distinct_nontrivial: casts have no rare side (never None / panic); the count is of expected-panic/None transitions and is 0 by construction"]},
+    ),
+    "C13": core(
+        "c13",
+        "states = (source value, ordered type pair) as in C09: BTryFrom for every ordered bnum pair, TryFrom<bnum> for each primitive, From / TryFrom<primitive>, From<bool>, From<char> for bnum targets at least as wide as the source, and the digit-array layout (from_digits / digits / From<[digit; N]> / Into / from_digit, observed through an independent shift-and-convert channel); expected = Ok(value) iff representable else Err; non-trivial = expected Err",
+        "Checked conversions succeed exactly when the value is representable in the target, without panicking, for every enumerated source value and type pair.",
+        "DESIGN.md section 5 C13",
+        NOTE_MODEL + "; quick tier runs the debug-assertion profile only, thorough both",
+        extra={"bin_thorough": "c13t", "profiles_quick": ["relda"]},
+    ),
 }
 
 ALL = ["C%02d" % i for i in range(1, 21)]
